@@ -788,6 +788,11 @@ class Frame:
                 self.I.oblige('safety', f"value assigned to size_t variable '{t.id}' is >= 0 (no unsigned wrap-around)", tv >= 0,
                               getattr(t, 'lineno', None))
             self.env[t.id] = v
+        elif isinstance(t, (ast.Tuple, ast.List)) and hasattr(v, 'pv_havoc'):
+            # unpacking an arbitrary object: fails, or every target gets an arbitrary object
+            v.world.may_fail('unpacking an arbitrary object')
+            for e in t.elts:
+                self.assign(e, v._new('unpacked'))
         elif isinstance(t, (ast.Tuple, ast.List)):
             items = npmodel.iterate(self.I, v)
             if any(isinstance(e, ast.Starred) for e in t.elts):
@@ -1242,6 +1247,11 @@ class Frame:
         return npmodel.getitem(self.I, base, idx, e.lineno)
 
     def e_ListComp(self, e):
+        it0 = self.eval(e.generators[0].iter)
+        if hasattr(it0, 'pv_havoc'):
+            # comprehension over an arbitrary object: fails or yields an arbitrary object
+            it0.world.may_fail('comprehension over an arbitrary object')
+            return it0._new('[...]')
         return PList(self._comp(e.elt, e.generators))
 
     def e_GeneratorExp(self, e):
